@@ -38,6 +38,21 @@ pub fn difficulty(
         convert::apply_random_to_beatmap(map.to_mut(), seed);
     }
 
+    #[cfg(rosu_pp_verif)]
+    crate::verif::trace::emit(|| {
+        let objects: Vec<String> = map
+            .hit_objects
+            .iter()
+            .map(|h| format!("[{:?},{:?},{:?}]", h.pos.x, h.start_time, h.end_time()))
+            .collect();
+
+        format!(
+            r#"{{"g":"mania_difficulty_objects","cs":{:?},"objects":[{}]}}"#,
+            map.cs,
+            objects.join(",")
+        )
+    });
+
     let n_objects = cmp::min(difficulty.get_passed_objects(), map.hit_objects.len()) as u32;
 
     let values = DifficultyValues::calculate(difficulty, &map);
